@@ -11,6 +11,7 @@ mod c14;
 mod hist;
 mod c03;
 mod c08;
+mod c07;
 
 use engine::Ctx;
 
@@ -69,6 +70,8 @@ fn main() {
         ("C03", Some(p)) => c03::replay(&ctx, p),
         ("C08", None) => c08::run(&ctx),
         ("C08", Some(p)) => c08::replay(&ctx, p),
+        ("C07", None) => c07::run(&ctx),
+        ("C07", Some(p)) => c07::replay(&ctx, p),
         ("C16", None) => c16::run(&ctx),
         ("C16", Some(p)) => c16::replay(&ctx, p),
         _ => {
